@@ -23,9 +23,10 @@ CONSTANTS
   BugZeroCostHeld = FALSE
   SplitOnlyAtEnqueue = FALSE
   DropOnClose = FALSE
+  WriteErrorEndsReader = FALSE
   ForwardInitWin = FALSE
   WithSettings = TRUE
-INVARIANTS NotStarved WithinGrant WithinMaxFrame NoEligibleQueued LedgerAgrees PrefixFidelity Conserved HpackInOrder
+INVARIANTS ReaderAlive NotStarved WithinGrant WithinMaxFrame NoEligibleQueued LedgerAgrees PrefixFidelity Conserved HpackInOrder
 CONSTRAINT HWM
 POSTCONDITION Accepted
 CHECK_DEADLOCK FALSE
